@@ -283,21 +283,16 @@ class Project:
         # Special case: If a file contains only copyright, apply the
         # REUSE.toml's licensing if it exists, and vice versa.
         elif file_result.contains_copyright_xor_licensing():
-            if global_results[PrecedenceType.CLOSEST]:
-                # There should only by a single CLOSEST result in the list.
-                closest = global_results[PrecedenceType.CLOSEST][0]
+            # Nested REUSE.toml files may yield several CLOSEST results, each
+            # supplying a different half. Take the missing half from
+            # whichever of them has it.
+            for closest in global_results[PrecedenceType.CLOSEST]:
                 if file_result.copyright_lines:
-                    result.append(
-                        closest.copy(
-                            copyright_lines=set(),
-                        )
-                    )
-                elif file_result.spdx_expressions:
-                    result.append(
-                        closest.copy(
-                            spdx_expressions=set(),
-                        )
-                    )
+                    closest = closest.copy(copyright_lines=set())
+                else:
+                    closest = closest.copy(spdx_expressions=set())
+                if closest.contains_copyright_or_licensing():
+                    result.append(closest)
         return result
 
     def relative_from_root(self, path: StrPath) -> Path:
